@@ -87,6 +87,29 @@ TOKENS = [
     # brackets
     "[a]", "[a b]", "[]", "[a . b]", "(a]", "[a)", "[[a]]",
 ]
+# C19 / C13: well-formed single-datum texts covering every token kind; tag d = default options, e = Emacs Lisp
+# options, b = both
+DATUMS = [
+    ("b", "#nil"), ("b", "#t"), ("b", "#f"), ("b", "42"), ("b", "-17"), ("b", "+5"), ("b", "1.5"), ("b", "-0.5"), ("b", "1e3"),
+    ("b", "1.5e+3"), ("b", "2E-2"), ("b", "1e21"), ("b", "#xFF"), ("b", "#b101"), ("b", "#o17"), ("b", "#d10"), ("b", "#x-1a"),
+    ("b", "18446744073709551616"), ("b", "0.000001"),
+    ("b", "#\\a"), ("b", "#\\space"), ("b", "#\\x41"), ("b", "#\\λ"), ("b", "#\\nul"), ("b", "#\\delete"), ("b", "#\\x3bb"),
+    ("b", "#\\("), ("b", "#\\newline"), ("b", "#\\😀"),
+    ("d", '"abc"'), ("d", '"a\\nb"'), ("d", '"\\x41;"'), ("d", '"§§§""'), ("d", '"λ"'), ("d", '"a\\tb\\a"'),
+    ("d", '"\\a\\b\\t\\n\\v\\f\\r\\|"'), ("d", '"\\x3bb;x"'), ("d", '"😀"'), ("b", '""'),
+    ("b", "#u8(1 2)"), ("b", "#vu8(255)"), ("b", "#u8()"), ("b", "#u8(#xff 0)"),
+    ("b", "'a"), ("b", "`a"), ("b", ",a"), ("b", ",@a"), ("b", "'(a b)"), ("b", "''a"),
+    ("b", "foo"), ("b", "λx"), ("b", "<="), ("b", "..."), ("b", "+"), ("b", "-"), ("b", "+.a"), ("b", "-λ"), ("b", "a.b"),
+    ("d", "#:key"), ("d", "#:λ"), ("e", ":key"), ("d", "nil"), ("d", "t"),
+    ("b", "(a b)"), ("b", "(a . b)"), ("b", "()"), ("d", "[a b]"), ("d", "[a . b]"), ("b", "#(1 2)"), ("b", "#()"),
+    ("b", "(a (b) #(c))"), ("b", '((a . b) "s" #\\x)'), ("b", "(a ;c\n b)"), ("b", "( a\t.\r\nb )"),
+    ("e", "?a"), ("e", "?\\("), ("e", "?\\n"), ("e", "?\\x41"), ("e", "?\\101"), ("e", "?λ"), ("e", "?\\u0041"),
+    ("e", "?\\U00000041"), ("e", "?§§"), ("e", "?\\s"), ("e", '?"'),
+    ("e", '"\\x41"'), ("e", '"\\101"'), ("e", '"\\u0041"'), ("e", '"\\U0001F600"'), ("e", '"\\N{U+41}"'), ("e", '"\\e\\s\\d"'),
+    ("e", '"a\\ b"'), ("e", '"λ\\u03bb"'), ("e", '"\\001\\377"'), ("e", '"\\x41\\ 1"'), ("e", "[1 2]"), ("e", "[a [b]]"),
+    ("e", "(nil t)"), ("e", "1+"), ("e", "55033ea4-52b5"),
+]
+
 # contexts: @ is replaced by the token
 CONTEXTS = ["@", "(@ x)", "(x . @)", "#(x @)", "(x @)", "[x @]", "#(@)"]
 
@@ -107,6 +130,12 @@ EXTENDS Naturals, Sequences
     parts.append("StrAlphabet == {" + ", ".join(str(c) for c in STR_ALPHABET) + "}\n")
     parts.append("ByteVecCorpus == {" + ", ".join("<<" + ", ".join(map(str, b)) + ">>" for b in BYTEVECS) + "}\n")
     parts.append(tseq("TokenCorpus", [t.replace("\\\\", "\\") for t in TOKENS], bs, "C08 token corpus (bytes)"))
+    dat = [(d, t.replace("\\\\", "\\").replace("\\n", "\n").replace("\\t", "\t").replace("\\r", "\r") if False else (d, t)) for d, t in DATUMS]
+    def unesc(t):
+        # python-level escapes were doubled in the table above: \\\\ -> one backslash
+        return t.replace("\\\\", "\\").replace("§", "\\")
+    parts.append(tseq("DatumTexts", [unesc(t) for _, t in DATUMS], bs, "C19/C13 well-formed single-datum texts (bytes)"))
+    parts.append("DatumDialect == <<" + ", ".join('"%s"' % d for d, _ in DATUMS) + ">>\n")
     parts.append(tseq("ContextPrefix", [c.split("@")[0] for c in CONTEXTS], bs, "text before the token in each context"))
     parts.append(tseq("ContextSuffix", [c.split("@")[1] for c in CONTEXTS], bs, "text after the token in each context"))
     parts.append("=============================================================================\n")
